@@ -6,3 +6,8 @@ package flowcontrols
 
 //@ interface (UpstreamLimiter).GetOrDefault props C01
 //@   pure
+
+//@ func NewUpstreamLimiter props C11
+//@   trusted "constructor: allocates a limiter and its helpers, touches no existing object"
+//@   modifies nothing
+//@   ensures result != nil && fcsyncs[result] == 0
